@@ -2,6 +2,7 @@ import Driver.JsonIO
 import RulioModel.Match
 import RulioModel.MatchSpec
 import Driver.Loc
+import Driver.Pidx
 import Driver.C01
 import Driver.C02
 import Driver.C03
@@ -54,6 +55,9 @@ def handle (line : String) : String :=
     let out := match jstr c "kind" with
       | "match" => doMatch c
       | "loc" => handleLoc c
+      | "pidx" => handlePidx c
+      | "terms" => handleTerms c
+      | "tidx" => handleTidx c
       | k =>
         let tbl : List (String × (String → Json → Json)) := [("c01", handleC01), ("c02", handleC02), ("c03", handleC03), ("c04", handleC04), ("c06", handleC06), ("c07", handleC07), ("c08", handleC08), ("c09", handleC09), ("c10", handleC10), ("c11", handleC11), ("c12", handleC12), ("c13", handleC13), ("c14", handleC14), ("c15", handleC15), ("c16", handleC16), ("c17", handleC17), ("c18", handleC18), ("c19", handleC19), ("c20", handleC20)]
         match tbl.find? (fun (e : String × (String → Json → Json)) => k.startsWith (e.1 ++ ".")) with
